@@ -32,7 +32,7 @@ pub struct PropPlan {
 pub static PLANS: &[PropPlan] = &[PropPlan {
     prop: "C05",
     level: "fault_enumeration",
-    sims: &[SimPlan { sim: "io", quick_runs: 400_000, thorough_runs: 100_000 }],
+    sims: &[SimPlan { sim: "io", quick_runs: 2_500_000, thorough_runs: 12_000 }],
     rule: "each run draws a typed value tree (all serde data-model entry points: every integer width, f32/f64 incl. non-finite, char, strings placed 0..40 bytes before a PROT_NONE page, bytes, options, unit/newtype/tuple/struct variants, seqs/maps with and without length hints, every map-key kind incl. the ones that must be rejected, collect_str, embedded Value/RawNumber/LazyValue/OwnedLazyValue, a Serialize impl that fails), compact or pretty, a writer stack and a fault plan (permanent error / Ok(0) after n bytes, error at call c, reserve_with / flush_len error, plus transient short writes and EINTR). Quick: one drawn fault point per run. Thorough: for every base run with a fallible sink, EVERY byte offset 0..=len and every call index is enumerated for every fault kind (exhaustive per value, not globally). Non-trivial = an injected fault fired; distinct = distinct hash of (value, mode, stack, plan, outcome)",
     assumptions: &[
         "float tokens are compared by value (the spelling of a float is not specified by the property): the token must match the JSON number grammar and parse back to the same bits",
@@ -44,7 +44,7 @@ pub static PLANS: &[PropPlan] = &[PropPlan {
 }, PropPlan {
     prop: "C13",
     level: "exploration",
-    sims: &[SimPlan { sim: "lazy", quick_runs: 400_000, thorough_runs: 6_000_000 }],
+    sims: &[SimPlan { sim: "lazy", quick_runs: 1_500_000, thorough_runs: 20_000_000 }],
     rule: "each run draws a well-formed document model-first (every JSON type incl. bare literals, escaped and unescaped strings, number- and literal-looking strings), renders it with drawn whitespace/escapes while recording every value's span, obtains lazy handles by drawn routes (get on str/slice/Bytes/FastStr/String, get_unchecked, get_many, array/object iterators, serde borrowed field, from_str::<LazyValue>, from_str::<OwnedLazyValue>, From<LazyValue>, to_lazyvalue, owned struct field, From<bool>/From<()>), then runs a drawn history of 2-24 steps over a pool of handles: full accessor reads, child handles, clone, borrowed-to-owned, Value::try_from, take, as_array_mut/as_object_mut + Vec operations, get_mut / pointer_mut + assign or take, drop; after every step every live handle is re-serialized (to_string, to_vec, Display, embedded in a struct) and compared with its model (raw text verbatim for untouched parts). Non-trivial = at least one mutation happened; distinct = distinct hash of the rendered trace",
     assumptions: &[
         "documents have no duplicate keys; number literals are ones whose classification is unambiguous (C07 owns the corner cases)",
@@ -55,7 +55,7 @@ pub static PLANS: &[PropPlan] = &[PropPlan {
 }, PropPlan {
     prop: "C15",
     level: "exploration",
-    sims: &[SimPlan { sim: "dom", quick_runs: 300_000, thorough_runs: 5_000_000 }],
+    sims: &[SimPlan { sim: "dom", quick_runs: 600_000, thorough_runs: 12_000_000 }],
     rule: "each run keeps a pool of up to 6 live (Value, model) pairs seeded from a parsed root (in-place or copying path), macro-/conversion-built values and empty containers, and runs a drawn history of 2-48 steps over the public mutation API: Array (push pop insert remove swap_remove truncate clear resize resize_with retain retain_mut split_off append drain extend_from_within reserve index assignment iter_mut into_iter extend), Object (insert remove remove_entry get contains_key get_key_value get_mut entry or_insert/or_insert_with/or_insert_with_key/or_default/and_modify/key, occupied insert/remove/get_mut/into_mut, vacant insert/key, retain append iter_mut clear reserve Index IndexMut), Value (IndexMut by usize/&str/String/FastStr/PointerNode with insert-on-missing and null promotion, Index reads, get_mut, pointer / pointer_mut incl. the empty path and absent paths, take, clone of root or subtree, assignment of one member's clone into another, into_array/into_object, equality, to_string), including operations the reference rejects (out of range, wrong kind), which must fail and change nothing. After every step the result is compared with the model's and every pool member is dumped through the public read API and compared. Non-trivial = at least one mutation happened; distinct = distinct hash of the rendered trace",
     assumptions: &[
         "documents have no duplicate keys (the reference is a string-keyed map); capacity and member order of promoted objects are never compared",
@@ -66,7 +66,7 @@ pub static PLANS: &[PropPlan] = &[PropPlan {
 }, PropPlan {
     prop: "C16",
     level: "exploration",
-    sims: &[SimPlan { sim: "arena", quick_runs: 150_000, thorough_runs: 2_500_000 }],
+    sims: &[SimPlan { sim: "arena", quick_runs: 100_000, thorough_runs: 2_000_000 }],
     rule: "each run draws 1-3 simulated threads (real OS threads, real thread-local node buffer each) and, per thread, 2-40 operations over a bag of live (Value, model) pairs: parse by 7 routes (from_str, from_slice, Deserializer over Bytes/FastStr, value inside a struct, use_rawnumber, element of Vec<Value>), three values through one deserializer, streams (open / next / drop before or after their values), clone root / subtree, take a child out, insert a value into another document, mutate, read-and-compare, send to another thread, receive, drop; the scheduler may switch before every arena reference-count operation and between operations; final drops happen in a drawn order. Non-trivial = a context switch, cross-thread send, promotion or mutation happened; distinct = distinct hash of the rendered trace",
     assumptions: &[
         "std::sync::Arc and bumpalo are trusted; the baton serialises execution, so weak-memory races inside Arc use are out of reach (sonic-rs adds no atomics of its own on this path)",
